@@ -476,9 +476,22 @@ impl SignatureCache {
         }
     }
 
+    /// Cache key covering everything the verdict depends on: the signed fields
+    /// (id, key, sequence, name, endpoints, timestamp, ttl) and the signature itself.
+    fn cache_key(record: &PeerDHTRecord) -> Result<Hash> {
+        let mut hasher = blake3::Hasher::new();
+        hasher.update(&record.create_signable_message()?);
+        hasher.update(record.signature.as_bytes());
+        Ok(hasher.finalize())
+    }
+
     /// Verify signature with caching
     pub fn verify_cached(&mut self, record: &PeerDHTRecord) -> Result<()> {
-        let hash = record.content_hash();
+        // A record that cannot be serialised cannot be cached; verify it directly.
+        let hash = match Self::cache_key(record) {
+            Ok(hash) => hash,
+            Err(_) => return record.verify_signature(),
+        };
 
         // Check cache first
         if let Some(&result) = self.cache.get(&hash) {
